@@ -105,5 +105,15 @@ TEXT = {
                 "locally enforced relations are judged; info['iterations'] may count steps or loop tests",
         "technique": "runtime monitoring: loop-state tap + product counter, trace checked offline against an extended-precision Krylov-optimum oracle and the stopping-rule specification",
     },
+    "C13": {
+        "level": "Held on the executions observed: for generated invertible operators, right-hand sides (incl. early breakdown) and a "
+                 "sweep of m below, at and beyond n, the residual of the returned iterate is compared with the reference minimum "
+                 "over x0 + K_m(A, r0), the initial residual, the previous m and zero at the degree known by construction; products "
+                 "with A are counted.",
+        "note": _NOTE + "; minimal-residual is judged while the reference minimum is >= 1e-6 ||r0|| and kappa(A) <= 1e2; 'zero to "
+                "rounding' is 1e-5 ||r0|| (100x the worst value measured on the unchanged single-pass-MGS + normal-equations "
+                "algorithm); one extra product for the initial residual is allowed",
+        "technique": "runtime monitoring: reference least-squares oracle over the Krylov space + product counter, swept over the iteration cap",
+    },
 }
 NOT_APPLICABLE = {}
